@@ -89,7 +89,12 @@ def set_inputs(eng, inp):
         return
     kind, data = inp
     for j, v in enumerate(eng.input_variables):
-        v.value = float(data[j]) if kind == "row" else np.array([float(r[j]) for r in data])
+        if kind == "row":
+            v.value = float(data[j])
+        elif kind == "row0d":  # the same row held as 0-d arrays (what fl.scalar(x) gives)
+            v.value = np.array(float(data[j]))
+        else:
+            v.value = np.array([float(r[j]) for r in data])
 
 
 def apply_edit(eng, spec, ed):
@@ -201,8 +206,13 @@ def check_history(ctx, case) -> None:
             if inputs is None:
                 inputs = ("row", case["probe"])
                 set_inputs(cur, inputs)
+            before_in = [fvec(v.value) for v in cur.input_variables]
             cur.process()
             since.append(inputs)
+            after_in = [fvec(v.value) for v in cur.input_variables]
+            ctx.check(all(len(a) == len(b) and all(x == y or (x != x and y != y) for x, y in zip(a, b))
+                          for a, b in zip(before_in, after_in)), "process-changed-input-values", sub,
+                      {"before": before_in, "after": after_in})
             if kind == "process2":
                 first = snapshot(cur)
                 if not lockprev:
@@ -364,6 +374,20 @@ def cases(draw, maxlen=25):
     for v in spec["outputs"]:
         if not lp:
             v["lock_previous"] = False
+    if draw(st.integers(0, 9)) == 0:
+        # planted family: an input term whose membership is its argument itself (Function "x"), concluded by unweighted
+        # single-proposition rules under Proportional activation (which rescales rule degrees): nothing may alias the
+        # input values
+        iv, ov = spec["inputs"][0], spec["outputs"][0]
+        iv["terms"].append({"cls": "Function", "formula": "x", "p": [], "h": 1.0, "name": "raw"})
+        b0 = spec["blocks"][0]
+        b0["activation"] = {"cls": "Proportional"}
+        b0["enabled"] = True
+        b0["rules"] = [{"ante": {"var": iv["name"], "hedges": [], "term": t["name"], "rp": False},
+                        "cons": [{"var": ov["name"], "hedges": [], "term": ov["terms"][k % len(ov["terms"])]["name"]}],
+                        "weight": None, "enabled": True, "tight": False}
+                       for k, t in enumerate(reversed(iv["terms"][-2:]))] + b0["rules"][:1]
+        nongeneral = True
     row = gen.input_row(spec)
     nb, no, ni = len(spec["blocks"]), len(spec["outputs"]), len(spec["inputs"])
     edit = st.one_of(
@@ -397,6 +421,8 @@ def cases(draw, maxlen=25):
     _ = nb, no, ni
     if nongeneral:  # the other activation methods take scalar inputs only
         ops = [["set", "row", o[2][0]] if o[0] == "set" and o[1] == "batch" else o for o in ops]
+    if draw(st.booleans()):  # rows given as 0-d arrays instead of Python floats
+        ops = [["set", "row0d", o[2]] if o[0] == "set" and o[1] == "row" else o for o in ops]
     return {"spec": spec, "ops": ops, "probe": draw(row)}
 
 
